@@ -87,7 +87,7 @@ var kinds = []kindSpec{
 	{Class: "DaemonSet", Group: "apps.kruise.io", Version: "v1alpha1", Kind: "DaemonSet", Resource: "daemonsets", WT: "daemonset", Chain: []string{"workload", "unified"}},
 	{Class: "StatefulSet", Group: "apps", Version: "v1", Kind: "StatefulSet", Resource: "statefulsets", WT: "statefulset", Chain: []string{"unified"}, Native: true},
 	{Class: "AdvancedStatefulSet", Group: "apps.kruise.io", Version: "v1beta1", Kind: "StatefulSet", Resource: "statefulsets", WT: "statefulset", Chain: []string{"unified"}},
-	{Class: "StatefulSetLike", Group: "apps.example.io", Version: "v1", Kind: "FooSet", Resource: "foosets", WT: "StatefulSet", Chain: []string{"unified"}},
+	{Class: "ForeignStatefulSetLike", Group: "apps.example.io", Version: "v1", Kind: "FooSet", Resource: "foosets", WT: "StatefulSet", Chain: []string{"unified"}},
 }
 
 func kindByClass(c string) *kindSpec {
@@ -106,8 +106,17 @@ func (k *kindSpec) apiVersion() string {
 	return k.Group + "/" + k.Version
 }
 
+// family is the signature component: the three StatefulSet-like kinds run through one code path, one defect there
+// must not yield three signatures.
+func (k *kindSpec) family() string {
+	if k.isSTS() {
+		return "StatefulSetLike"
+	}
+	return k.Class
+}
+
 func (k *kindSpec) isSTS() bool {
-	return k.Class == "StatefulSet" || k.Class == "AdvancedStatefulSet" || k.Class == "StatefulSetLike"
+	return k.Class == "StatefulSet" || k.Class == "AdvancedStatefulSet" || k.Class == "ForeignStatefulSetLike"
 }
 
 // ---------- shapes (indices into the per-field alphabets; 0 is the simplest value) ----------
@@ -465,6 +474,9 @@ var rolloutSets = []roSet{
 
 const quickRolloutSets = 11
 
+var thoroughCoreRolloutSets = map[string]bool{"matching-bluegreen": true, "empty-strategy": true, "other-kind": true}
+var quickCoreRolloutSets = map[string]bool{"none": true, "matching": true, "matching+traffic": true, "disabled": true, "deleting": true}
+
 func rolloutSetIndex(name string) int {
 	for i := range rolloutSets {
 		if rolloutSets[i].Name == name {
@@ -531,6 +543,7 @@ type Input struct {
 	RSSet       string             `json:"replicaSetSet,omitempty"`
 	Operation   string             `json:"operation"`
 	SubResource string             `json:"subResource,omitempty"`
+	FullChain   bool               `json:"fullChain"` // false: the second webhook of the chain is only called for objects the first one patched
 	Old         json.RawMessage    `json:"oldObject,omitempty"`
 	New         json.RawMessage    `json:"object"`
 	Rollouts    []*v1beta1.Rollout `json:"rollouts"`
@@ -1002,6 +1015,11 @@ func frameDiff(k *kindSpec, submitted, admitted M) []string {
 
 // ---------- running one case ----------
 
+type jsonpatchOp struct {
+	Operation string `json:"op"`
+	Path      string `json:"path"`
+}
+
 type finding struct {
 	Sig    string
 	Detail string
@@ -1034,8 +1052,13 @@ func evaluate(e *env, k *kindSpec, in *Input, trace func(format string, a ...int
 		trace("FINDING %s: %s", sig, detail)
 	}
 	cur := []byte(in.New)
+	patched := false
 	e.writes = 0
-	for _, hn := range k.Chain {
+	for i, hn := range k.Chain {
+		if i > 0 && !in.FullChain && len(cur) == len(in.New) && string(cur) == string(in.New) {
+			trace("-> %s handler skipped (quick tier: second webhook only sees objects the first one patched)", hn)
+			continue
+		}
 		req, reqJSON := request(k, in, cur)
 		trace("-> %s handler, admission request: %s", hn, string(reqJSON))
 		var resp admission.Response
@@ -1048,7 +1071,7 @@ func evaluate(e *env, k *kindSpec, in *Input, trace func(format string, a ...int
 		})
 		if p != nil {
 			res.Observed = "panic"
-			add("C08/panic/"+p.Site+"/"+k.Class, fmt.Sprintf("%s handler panicked: %s (expected %s/%s)\n%s", hn, p.Value, res.Expect.Class, res.Expect.Reason, firstRepoFrames(p.Stack)))
+			add("C08/panic/"+p.Site+"/"+k.family(), fmt.Sprintf("%s handler panicked: %s (expected %s/%s)\n%s", hn, p.Value, res.Expect.Class, res.Expect.Reason, firstRepoFrames(p.Stack)))
 			return res
 		}
 		if !resp.Allowed {
@@ -1057,7 +1080,7 @@ func evaluate(e *env, k *kindSpec, in *Input, trace func(format string, a ...int
 				code, msg = resp.Result.Code, resp.Result.Message
 			}
 			res.Observed = "denied"
-			add(fmt.Sprintf("C08/denied/%s/%s/%d", k.Class, hn, code), fmt.Sprintf("%s handler rejected the request: code=%d %s", hn, code, msg))
+			add(fmt.Sprintf("C08/denied/%s/%s/%d", k.family(), hn, code), fmt.Sprintf("%s handler rejected the request: code=%d %s", hn, code, msg))
 			return res
 		}
 		if len(resp.Patches) == 0 {
@@ -1073,22 +1096,25 @@ func evaluate(e *env, k *kindSpec, in *Input, trace func(format string, a ...int
 		}
 		if err != nil {
 			res.Observed = "patch-inapplicable"
-			first := resp.Patches[0]
-			add(fmt.Sprintf("C08/patch-inapplicable/%s/%s %s", k.Class, first.Operation, first.Path),
+			add(fmt.Sprintf("C08/patch-inapplicable/%s/%s", k.family(), strings.Join(orphanOps(unmarshalM(cur), pb), ",")),
 				fmt.Sprintf("the JSON patch returned by the %s handler cannot be applied to the submitted object (the API server fails the request): %v\npatch: %s", hn, err, string(pb)))
 			return res
 		}
 		cur = out
+		patched = true
 	}
 	if e.writes > 0 {
-		add("C08/store-write/"+k.Class, fmt.Sprintf("the admission handler wrote to the cluster %d time(s)", e.writes))
+		add("C08/store-write/"+k.family(), fmt.Sprintf("the admission handler wrote to the cluster %d time(s)", e.writes))
 	}
-	adm := unmarshalM(cur)
-	res.Mutated = !reflect.DeepEqual(adm, nw)
+	adm := nw
+	if patched {
+		adm = unmarshalM(cur)
+		res.Mutated = !reflect.DeepEqual(adm, nw)
+	}
 	trace("admitted object: %s", string(cur))
 	if res.Mutated {
 		if d := frameDiff(k, nw, adm); len(d) > 0 {
-			add("C08/frame/"+k.Class+"/"+strings.Join(d, ","), "the admitted object differs from the submitted one outside the allow-listed paths at "+strings.Join(d, ","))
+			add("C08/frame/"+k.family()+"/"+strings.Join(d, ","), "the admitted object differs from the submitted one outside the allow-listed paths at "+strings.Join(d, ","))
 		}
 	}
 	held, whyNot := heldBack(k, adm)
@@ -1099,7 +1125,7 @@ func evaluate(e *env, k *kindSpec, in *Input, trace func(format string, a ...int
 			if ok, _ := markedFor(adm, roName); ok && held {
 				res.Observed = "held+marked"
 			}
-			add("C08/not-admitted-unchanged/"+k.Class+"/"+res.Expect.Reason, "expected to be admitted unchanged ("+res.Expect.Reason+") but the object was changed at "+strings.Join(lib.JSONDiff(nw, adm), ","))
+			add("C08/not-admitted-unchanged/"+k.family()+"/"+res.Expect.Reason, "expected to be admitted unchanged ("+res.Expect.Reason+") but the object was changed at "+strings.Join(lib.JSONDiff(nw, adm), ","))
 		} else {
 			res.Observed = "unchanged"
 		}
@@ -1108,10 +1134,10 @@ func evaluate(e *env, k *kindSpec, in *Input, trace func(format string, a ...int
 		switch {
 		case !held:
 			res.Observed = "not-held"
-			add("C08/not-held-back/"+k.Class+"/"+res.Expect.Reason, "a supervised release change ("+res.Expect.Reason+") was admitted without being held back: "+whyNot)
+			add("C08/not-held-back/"+k.family()+"/"+res.Expect.Reason, "a supervised release change ("+res.Expect.Reason+") was admitted without being held back: "+whyNot)
 		case !marked:
 			res.Observed = "held-unmarked"
-			add("C08/not-marked/"+k.Class+"/"+res.Expect.Reason, "a supervised release change ("+res.Expect.Reason+") was held back but not marked in-progress for Rollout "+res.Expect.Rollout+": "+whyNotMarked)
+			add("C08/not-marked/"+k.family()+"/"+res.Expect.Reason, "a supervised release change ("+res.Expect.Reason+") was held back but not marked in-progress for Rollout "+res.Expect.Rollout+": "+whyNotMarked)
 		default:
 			res.Observed = "held+marked"
 		}
@@ -1139,6 +1165,32 @@ func evaluate(e *env, k *kindSpec, in *Input, trace func(format string, a ...int
 	}
 	trace("observed: %s (mutated=%v)", res.Observed, res.Mutated)
 	return res
+}
+
+// orphanOps names the patch operations whose parent (add) or target (replace/remove) is missing from doc,
+// sorted - jsonpatch.CreatePatch emits operations in map order, the signature must not depend on it.
+func orphanOps(doc M, patch []byte) []string {
+	var ops []jsonpatchOp
+	_ = json.Unmarshal(patch, &ops)
+	var out []string
+	for _, op := range ops {
+		parts := strings.Split(strings.TrimPrefix(op.Path, "/"), "/")
+		for i := range parts {
+			parts[i] = strings.ReplaceAll(strings.ReplaceAll(parts[i], "~1", "/"), "~0", "~")
+		}
+		need := parts
+		if op.Operation == "add" {
+			need = parts[:len(parts)-1]
+		}
+		if _, ok := getPath(doc, need...); !ok && len(need) > 0 {
+			out = append(out, op.Operation+" "+op.Path)
+		}
+	}
+	if len(out) == 0 {
+		out = []string{"other"}
+	}
+	sort.Strings(out)
+	return out
 }
 
 func firstRepoFrames(stack string) string {
@@ -1223,9 +1275,6 @@ func shapes(k *kindSpec, group string, th bool, f func(s Shape)) {
 		inprogs := []b2{{false, false}}
 		if k.Class != "Deployment" {
 			inprogs = append(inprogs, b2{true, true})
-			if th {
-				inprogs = append(inprogs, b2{true, false})
-			}
 		}
 		pauseds := []b2{{false, false}}
 		strategies := make([]int, nStrategies(k))
@@ -1240,11 +1289,7 @@ func shapes(k *kindSpec, group string, th bool, f func(s Shape)) {
 				strategies = []int{0, 1, 2}
 			}
 		}
-		labels := []int{0}
-		if th {
-			labels = []int{0, 1}
-		}
-		for _, lb := range labels {
+		for _, lb := range []int{0} {
 			for _, st := range strategies {
 				for _, pz := range pauseds {
 					for _, ip := range inprogs {
@@ -1293,9 +1338,10 @@ func shapes(k *kindSpec, group string, th bool, f func(s Shape)) {
 			}
 		}
 	case "unselected":
-		// label shapes that do not select the object, subresource updates and creations
-		for _, v := range []struct{ lb, op int }{{2, 0}, {3, 0}, {4, 0}, {0, 1}, {0, 2}} {
-			for _, ip := range []b2{{false, false}, {true, true}} {
+		// label shapes that do not select the object, subresource updates and creations; plus (selected) extra labels
+		// next to the workload-type label and the marker removed by the edit
+		for _, v := range []struct{ lb, op int }{{2, 0}, {3, 0}, {4, 0}, {0, 1}, {0, 2}, {1, 0}} {
+			for _, ip := range []b2{{false, false}, {true, true}, {true, false}} {
 				for _, pz := range []b2{{false, false}, {true, false}} {
 					if k.Class != "Deployment" && pz[0] {
 						continue
@@ -1330,8 +1376,19 @@ func chunks(th bool) []chunk {
 	for i := range kinds {
 		k := &kinds[i]
 		for ro := 0; ro < nRo; ro++ {
+			// the three StatefulSet-like kinds share one (unstructured) code path: the quick tier runs the full Rollout-set
+			// alphabet on the Advanced StatefulSet and a core of it on the other two
+			if k.Class == "StatefulSet" || k.Class == "ForeignStatefulSetLike" {
+				if name := rolloutSets[ro].Name; (!th && !quickCoreRolloutSets[name]) || (th && !quickCoreRolloutSets[name] && !thoroughCoreRolloutSets[name]) {
+					continue
+				}
+			}
 			if k.Class == "Deployment" {
 				for rs := 0; rs < nRS; rs++ {
+					// Rollout sets beyond the quick alphabet are combined with the two decisive ReplicaSet sets only
+					if ro >= quickRolloutSets && rs != 0 && rs != 2 {
+						continue
+					}
 					out = append(out, chunk{k, ro, rs, "enter"})
 				}
 			} else {
@@ -1342,6 +1399,9 @@ func chunks(th bool) []chunk {
 	k := kindByClass("Deployment")
 	for _, name := range []string{"none", "matching", "matching+traffic", "matching-bluegreen", "disabled", "other-name,matching+traffic"} {
 		for _, rs := range []int{0, 2} {
+			if !th && rs == 2 && name != "matching+traffic" {
+				continue
+			}
 			out = append(out, chunk{k, rolloutSetIndex(name), rs, "mid-release"})
 		}
 	}
@@ -1365,6 +1425,7 @@ func runChunk(r *lib.Report, c chunk, th bool) *chunkResult {
 	shapes(c.k, c.group, th, func(s Shape) {
 		sc := s
 		in := makeInput(c.k, &sc, c.ro, c.rs, c.group, rollouts, rss)
+		in.FullChain = th
 		var res result
 		if p := lib.Catch(func() { res = evaluate(e, c.k, in, nil) }); p != nil {
 			res.Findings = append(res.Findings, finding{"C08/harness-panic/" + p.Site, "the check itself panicked: " + p.Value + "\n" + p.Stack})
